@@ -39,6 +39,8 @@ def main() -> int:
         spec = json.load(open(p))
         items.append(("mutation", p, spec.get("breaks", []), spec.get("note", "")))
     for d in sorted(glob.glob(os.path.join(VERIF, "seeded", "*"))):
+        if not os.path.exists(os.path.join(d, "meta.json")):
+            continue  # seedcheck still writing this one
         meta = json.load(open(os.path.join(d, "meta.json")))
         checks = [c for c, ok in (meta.get("checks_run") or {}).items() if ok] or [meta.get("breaks")]
         items.append(("seeded", os.path.join(d, "patch.diff"), checks, meta.get("needs", "")))
